@@ -363,6 +363,35 @@ pub fn run(cfg: &Cfg) -> Report {
                 bad.push(format!("clone_from: a TestResults with {n1} results overwritten from one with {n2} results has total {} for results {:?}", dst.total_result.0, dst.results.iter().map(|r| r.0).collect::<Vec<_>>()));
             }
         }
+        // ---- (g) result collections with different numbers of cases still compare as their totals do
+        for (ra, rb) in [(vec![1i64, 2, 3], vec![9i64]), (vec![], vec![0i64]), (vec![5], vec![2, 3]), (vec![4, 4], vec![1, 1, 1, 1, 1, 1, 1, 1]), (vec![], vec![]), (vec![-7], vec![])] {
+            let a: TestResults<Score<i64>> = ra.clone().into();
+            let b: TestResults<Score<i64>> = rb.clone().into();
+            let (ta, tb): (i64, i64) = (ra.iter().sum(), rb.iter().sum());
+            let ea: TestResults<Error<i64>> = ra.clone().into();
+            let eb: TestResults<Error<i64>> = rb.clone().into();
+            let ia = EcIndividual::new(1u8, a.clone());
+            let ib = EcIndividual::new(2u8, b.clone());
+            let ok = a.partial_cmp(&b) == Some(ta.cmp(&tb)) && a.cmp(&b) == ta.cmp(&tb) && (a < b) == (ta < tb) && (a <= b) == (ta <= tb) && (a > b) == (ta > tb) && (a >= b) == (ta >= tb)
+                && ea.partial_cmp(&eb) == Some(tb.cmp(&ta)) && (ea < eb) == (tb < ta) && (ea >= eb) == (tb >= ta)
+                && ia.partial_cmp(&ib) == Some(ta.cmp(&tb)) && (ia <= ib) == (ta <= tb) && (ia > ib) == (ta > tb);
+            if !ok { bad.push(format!("result collections {ra:?} (total {ta}) and {rb:?} (total {tb}) do not compare as their totals do: partial_cmp = {:?}", a.partial_cmp(&b))); }
+        }
+        // ---- (h) collect() from any iterator keeps every value, in order, and totals them - also from lazy iterators
+        // whose size hint has lower bound 0 (filter, flat_map, take_while, from_fn)
+        for vs in [vec![3i64, -1, 4], vec![7], vec![], vec![1, 1, 1, 1, 1, 1, 1, 1, 1, 1]] {
+            let want: TestResults<Score<i64>> = vs.clone().into();
+            let c1: TestResults<Score<i64>> = vs.iter().copied().filter(|_| true).collect();
+            let c2: TestResults<Score<i64>> = vs.iter().flat_map(|x| std::iter::once(*x)).collect();
+            let c3: TestResults<Score<i64>> = vs.iter().copied().take_while(|_| true).collect();
+            let mut it = vs.iter().copied();
+            let c4: TestResults<Score<i64>> = std::iter::from_fn(|| it.next()).collect();
+            let c5: TestResults<Error<i64>> = vs.iter().copied().skip_while(|_| false).collect();
+            let want_e: TestResults<Error<i64>> = vs.clone().into();
+            if c1 != want || c2 != want || c3 != want || c4 != want || c5 != want_e || want.total_result.0 != vs.iter().sum::<i64>() || want.results.len() != vs.len() {
+                bad.push(format!("collect() of the values {vs:?} through a lazy iterator (filter / flat_map / take_while / from_fn / skip_while) does not give the results in order with their total: e.g. {:?} total {}", c1.results.iter().map(|r| r.0).collect::<Vec<_>>(), c1.total_result.0));
+            }
+        }
         rep.hit_n("incomparable-results / clone_from oracles", 1);
         for f in bad.into_iter().take(10) {
             rep.violate(json!({"case": "individuals and result collections compare / aggregate as their totals do", "what": f}));
